@@ -107,6 +107,7 @@ NEEDS3 = {
  "C12B": ("src/arrival/dmin.rs DeltaMinIterator: items labelled with step_count instead of next_count", "any model where two jobs share a step (bursts)"),
  "C13A": ("src/arrival/curve.rs: jobs_in_largest_known_distance = len + 2 AND StepsIter::advance extrapolates to njobs instead of njobs + 1 — each alone unobservable", "THREE operations in order: advance a steps_iter past the cached prefix; extend the cache by >= 2 entries through a clone / jittered clone / second iterator; continue the first iterator (it skips a step)"),
  "C13B": ("src/arrival/curve.rs extrapolate_with_bound, single-entry branch: pushes delta instead of delta - epsilon", "a single-entry prefix followed by an explicit extrapolate_with_bound: optimistic curve"),
+ "C17A": ("src/ros2/bw.rs busy_window_rbf: an interfering Timer gets the polled-callback cap", "bw analysis with an interfering timer that releases more jobs than the cap admits; the per-offset bound then depends on steps that are not in the search space, so a hardening that shifts steps (jitter+1, period-1) can lower the result"),
  "C19A": ("src/edf/fully_nonpreemptive.rs: blocking bound = service_needed(epsilon) - epsilon of the blocker", "a later-deadline blocker that can release several jobs at one instant: safe but breaks LP(seg=WCET) == NP"),
  "C19B": ("src/edf/floating_nonpreemptive.rs: shifted search-space steps taken from the analysed task's RBF instead of the other task's", "different periods and a later release of the other task inside the busy window"),
 }
@@ -139,8 +140,17 @@ def main():
             if os.path.exists(f"{dstdir}/meta.json"):
                 index.append(json.load(open(f"{dstdir}/meta.json")))
             continue
-        txt = open(res).read()
-        base = open(basefile).read() if os.path.exists(basefile) else txt
+        base = open(basefile).read() if os.path.exists(basefile) else open(res).read()
+        # per check the newest run wins: lines of the re-check file (current harness) override
+        # those of the first full pass
+        per = {}
+        for f in [basefile, res]:
+            if os.path.exists(f):
+                for line in open(f).read().splitlines():
+                    m = re.match(r"(C\d\d) exit=", line)
+                    if m:
+                        per[m.group(1)] = line
+        txt = "\n".join(per[k] for k in sorted(per))
         def after(label, t):
             m = re.search(re.escape(label) + r"\n(test result: [^\n]*)", t)
             return m.group(1) if m else None
